@@ -224,15 +224,14 @@ func (pb *patternBuilder) getUnion() (s byteSet, err error) {
 		neg = true
 		b, err = pb.next()
 	}
-	if b == ']' {
-		s.add(b)
-		b, err = pb.next()
-	}
+	// A ']' in first position does not close the set: it is an ordinary
+	// character (which may be the start of a range).
+	first := true
 	var r byteSet
 Loop:
-	for err == nil {
+	for ; err == nil; first = false {
 		switch {
-		case b == ']':
+		case b == ']' && !first:
 			if neg {
 				s.complement()
 			}
